@@ -17,7 +17,8 @@ BUDGET = {"quick": 240, "thorough": 1800}
 ANCHORED = ["_GridGenerator.__init__", "_GridGenerator.accumulate_integer_grid", "GridSearch.fit", "GridSearch.predict"]
 RULE = ("random binary datasets n<=30, 2..4 groups, one feature with 2..5 distinct values; parity moments x 9 bound specs and "
         "BoundedGroupLoss (square/absolute loss, finite per-cell regressor class); grid_size in 2..60, grid_limit in {0.5,2,5}, "
-        "constraint_weight in {0,0.3,0.5,1}; base learner exact over an enumerable class. strict class: every group occurs in every "
+        "constraint_weight in {0,0.3,0.5,1}; base learner exact over an enumerable class, in a quarter of the cases wrapped in a "
+        "scikit-learn Pipeline (sample_weight_name='clf__sample_weight'). strict class: every group occurs in every "
         "event (both labels in every group, no control feature) - the multiplier vectors must be grid_size distinct non-negative "
         "vectors with L1 norm <= grid_limit; sparse class: control strata / missing label classes (known finding F9 when a group is "
         "absent from an event). For every column: the predictor attains min over H of err + lambda.gamma (value equality), "
@@ -63,14 +64,23 @@ def run_case(cls, key, seed, ctx):
     gs = int(gen.pick(rng, [2, 3, 5, 8, 13, 20, 33, 60]))
     gl = float(gen.pick(rng, [0.5, 2.0, 5.0]))
     cw = float(gen.pick(rng, [0.0, 0.3, 0.5, 1.0]))
-    est = red.GridSearch(ExactLearner(hclass=hclass), moment, grid_size=gs, grid_limit=gl, constraint_weight=cw)
+    composite = bool(rng.random() < 0.25)
+    if composite:
+        # a composite estimator with nested mutable state: every grid point needs its own deep copy
+        from sklearn.pipeline import Pipeline
+        from sklearn.preprocessing import FunctionTransformer
+
+        est = red.GridSearch(Pipeline([("noop", FunctionTransformer()), ("clf", ExactLearner(hclass=hclass))]), moment, grid_size=gs, grid_limit=gl,
+                             constraint_weight=cw, sample_weight_name="clf__sample_weight")
+    else:
+        est = red.GridSearch(ExactLearner(hclass=hclass), moment, grid_size=gs, grid_limit=gl, constraint_weight=cw)
     X, y, g, c = ML.wrap_inputs(rng, ds)
     kw = {"sensitive_features": g}
     if c is not None:
         kw["control_features"] = c
     est.fit(X, y, **kw)
     wit = {"moment": kind, "bound": list(bound), "y": ds.y, "groups": ds.g, "control": ds.c, "x": ds.X[:, 0].tolist(), "hclass": hclass,
-           "grid_size": gs, "grid_limit": gl, "constraint_weight": cw}
+           "grid_size": gs, "grid_limit": gl, "constraint_weight": cw, "pipeline_estimator": composite}
     mom = est.constraints
     mapping, problems = ML.align_index(mom, kind, ds, ratio, rng)
     if problems:
@@ -104,7 +114,7 @@ def run_case(cls, key, seed, ctx):
         bad = [(repr(e), float(gcol[e]), float(g_h[tab.keys.index(mapping[e])])) for e in mom.index
                if not close(gcol[e], g_h[tab.keys.index(mapping[e])], 1e-10, 1e-12)]
         ctx.check(not bad, "recorded_gamma_differs_from_the_predictors_constraint_values", column=repr(col), mismatches=bad[:4], wit=wit)
-    ctx.mark([cls, kind, list(bound), ds.n, len(set(ds.g)), gs, gl, cw, hclass], len(set(preds)) >= 2,
+    ctx.mark([cls, kind, list(bound), ds.n, len(set(ds.g)), gs, gl, cw, hclass, composite], len(set(preds)) >= 2,
              sample={k: wit[k] for k in ("moment", "bound", "y", "groups", "control", "x", "grid_size", "grid_limit", "constraint_weight")})
     selection_and_delegation(ctx, est, lam, ds.X, cw, wit, proba=True)
 
